@@ -83,21 +83,17 @@ Proof.
   unfold mark_child_deleted. apply kf_bind; [apply kf_remove_with_name; intros f r H; discriminate|intros o].
   destruct o; [|apply kf_ret]. apply kf_bind; [apply kf_gets|intros fuel; apply kf_notify_delete].
 Qed.
-Lemma kf_notify_name_change fuel : forall n, kfids (notify_name_change fuel n).
+Lemma kf_notify_name_change {A} fuel : forall n (k : M A), kfids k -> kfids (notify_name_change fuel n k).
 Proof.
-  induction fuel as [|k IH]; intros n; cbn [notify_name_change]; [apply kf_panic|].
-  apply kf_bind; [apply kf_gets|intros p]. apply kf_bind.
-  - generalize (pn_refs p) as l. induction l as [|[r nm] rest IHl]; [apply kf_ret|].
-    apply kf_bind; [apply kf_gets|intros fr]. destruct (0 <? fr_refs fr)%Z; [|exact IHl].
-    apply kf_bind; [apply kf_incref|intros _]. destruct (fr_parent fr); [|apply kf_panic].
-    apply kf_bind; [apply kf_gets|intros pfr]. apply kf_bind; [apply kf_backend|intros _].
-    apply kf_bind; [exact IHl|intros hs; apply kf_ret].
-  - intros h1. apply kf_bind; [|intros h2; apply kf_ret].
-    generalize (pn_kids p) as l. induction l as [|[nm c] rest IHl]; [apply kf_ret|].
-    apply kf_bind; [apply IH|intros a]. apply kf_bind; [exact IHl|intros b; apply kf_ret].
+  induction fuel as [|f IH]; intros n k Hk; cbn [notify_name_change]; [apply kf_panic|].
+  apply kf_bind; [apply kf_gets|intros p].
+  generalize (pn_refs p) as l. induction l as [|[r nm] rest IHl].
+  - generalize (pn_kids p) as kids. induction kids as [|[nm c] rest IHk]; [exact Hk|]. apply IH. exact IHk.
+  - apply kf_bind; [apply kf_gets|intros fr]. destruct (0 <? fr_refs fr)%Z; [|exact IHl].
+    apply kf_bind; [apply kf_incref|intros _]. apply kf_with_defer; [apply kf_dec_ref_|].
+    destruct (fr_parent fr); [|apply kf_panic].
+    apply kf_bind; [apply kf_gets|intros pfr]. apply kf_bind; [apply kf_backend|intros _; exact IHl].
 Qed.
-Lemma kf_dec_all l : kfids (dec_all l).
-Proof. induction l as [|r t IH]; cbn [dec_all]; [apply kf_ret|]. apply kf_bind; [apply kf_dec_ref_|intros _; exact IH]. Qed.
 Lemma kf_rename_child_to f old target new : kfids (rename_child_to f old target new).
 Proof.
   unfold rename_child_to. apply kf_bind; [apply kf_gets|intros ffr]. apply kf_bind; [apply kf_gets|intros tfr].
@@ -106,7 +102,7 @@ Proof.
     apply kf_bind; [apply kf_gets|intros fr]. apply kf_bind; [kf|intros _]. apply kf_bind; [kf|intros _]. apply kf_bind; [kf|intros _].
     apply kf_bind; [kf|intros _]. apply kf_bind; [destruct (fr_parent fr); [apply kf_dec_ref_|apply kf_panic]|intros _]. kf.
   - intros o. destruct o; [|apply kf_ret]. apply kf_bind; [kf|intros _].
-    apply kf_bind; [apply kf_gets|intros fuel]. apply kf_bind; [apply kf_notify_name_change|intros held; apply kf_dec_all].
+    apply kf_bind; [apply kf_gets|intros fuel]. apply kf_notify_name_change. apply kf_ret.
 Qed.
 Lemma kf_walk_loop : forall names walk qids last, kfids (walk_loop names walk qids last).
 Proof.
